@@ -50,6 +50,11 @@ type WaitCase struct {
 	AnswerDelayMs int      `json:"answer_delay_ms"`
 	AnswerForm    string   `json:"answer_form"` // "reply" | "request" (a request from the neighbour addressed to the stack)
 	Decoy         bool     `json:"decoy"`       // replies for other addresses are injected first
+	// Refuse: the link endpoint refuses these resolution requests (1-based, in
+	// order of attempt) with a transient transmit error; a refused request
+	// counts as an attempt, the next one is due one timeout later. The request
+	// after which the neighbour answers is never refused.
+	Refuse []int `json:"refuse,omitempty"`
 }
 
 type waitResult struct {
@@ -88,6 +93,25 @@ func runWaitOnce(c WaitCase) (fail *evid.Failure, missed bool) {
 	}
 	e := newEnv(envCfg{V6: c.V6, NOwn: 1, Scaled: !c.Real, Age: time.Hour, Timeout: timeout, Attempts: attempts, Gateway: c.Gateway})
 	defer e.close()
+	if len(c.Refuse) > 0 {
+		var rmu sync.Mutex
+		nreq := 0
+		e.tap.Refuse = func(f netsim.Frame) *tcpip.Error {
+			if _, ok := e.asRequest(f); !ok {
+				return nil
+			}
+			rmu.Lock()
+			defer rmu.Unlock()
+			nreq++
+			for _, k := range c.Refuse {
+				if k == nreq && k != c.AnswerAfter {
+					evid.Label("wait:request-refused-by-link")
+					return tcpip.ErrNoBufferSpace
+				}
+			}
+			return nil
+		}
+	}
 	dest := peerIP(c.V6, 5)
 	hop := dest
 	if c.Gateway {
@@ -429,6 +453,13 @@ func genWait(rt *rapid.T) WaitCase {
 			w.DelayMs = rapid.IntRange(0, c.TimeoutMs*c.Attempts*5/4).Draw(rt, "delay")
 		}
 		c.Waiters = append(c.Waiters, w)
+	}
+	if rapid.IntRange(0, 2).Draw(rt, "refuse") == 0 {
+		for k := 1; k <= c.Attempts; k++ {
+			if k != c.AnswerAfter && rapid.Bool().Draw(rt, "refuse_k") {
+				c.Refuse = append(c.Refuse, k)
+			}
+		}
 	}
 	return c
 }
